@@ -21,7 +21,7 @@ import (
 func init() {
 	core.Register(&core.Check{
 		ID:     "C45",
-		Rule:   "cases: (a) PRNG-generated nested JSON-like Go values (nil, bool, every integer and float type at boundaries, json.Number, strings valid and invalid UTF-8, []byte, map[string]any, []any, depth <= 5): NewValue/NewStruct/NewList then AsInterface/AsMap/AsSlice vs a reference normalisation (integers and float32 -> float64, []byte -> base64 string, non-finite -> \"NaN\"/\"Infinity\"/\"-Infinity\"), invalid UTF-8 and unsupported types must be rejected; for finite content encoding/json of AsInterface and protojson of the Value parse to the same JSON value; (b) every linked message type with PRNG content: anypb.New / MarshalFrom / UnmarshalTo / UnmarshalNew / MessageIs / MessageName round trip, MessageIs false for every other sampled type (incl. types whose name is a suffix or prefix of the packed type's name), UnmarshalTo into another type fails; distinct = distinct values / (type, bytes); non-trivial = value is a container or message has a populated field",
+		Rule:   "cases: (a) PRNG-generated nested JSON-like Go values (nil, bool, every integer and float type at boundaries, json.Number, strings valid and invalid UTF-8, []byte, map[string]any, []any, depth <= 5): NewValue/NewStruct/NewList then AsInterface/AsMap/AsSlice vs a reference normalisation (integers and float32 -> float64, []byte -> base64 string, non-finite -> \"NaN\"/\"Infinity\"/\"-Infinity\"), invalid UTF-8 and unsupported types must be rejected; for finite content encoding/json of AsInterface and protojson of the Value parse to the same JSON value; (b) every linked message type with PRNG content: anypb.New / MarshalFrom / UnmarshalTo / UnmarshalNew / MessageIs / MessageName round trip, MessageIs false for every other sampled type (incl. types whose name is a suffix or prefix of the packed type's name), UnmarshalTo into another type fails, UnmarshalTo into a destination that already holds other content (every fourth packed message is empty) leaves exactly the packed content, and without AllowPartial its verdict is the packed message's; distinct = distinct values / (type, bytes); non-trivial = value is a container or message has a populated field",
 		Assume: []string{"reflect.DeepEqual over the reference normalisation written in checks/c45.go", "encoding/json"},
 		Batches: func(tier string) []core.Batch {
 			var bs []core.Batch
@@ -34,7 +34,7 @@ func init() {
 			return bs
 		},
 		Gates: func(tier string) map[string]int64 {
-			return map[string]int64{"values": 20000, "values_rejected": 1000, "values_nested": 1500, "json_compared": 10000, "nonfinite": 300, "bytes_values": 500, "any_roundtrips": 1200, "any_messageis_false": 20000, "any_types": 500, "any_wrong_target": 3000}
+			return map[string]int64{"values": 20000, "values_rejected": 1000, "values_nested": 1500, "json_compared": 10000, "nonfinite": 300, "bytes_values": 500, "any_roundtrips": 1200, "any_messageis_false": 20000, "any_types": 500, "any_wrong_target": 3000, "any_unmarshalto_populated_destination": 1200, "any_empty_payload_into_populated_destination": 250}
 		},
 		Run: runC45,
 	})
@@ -285,7 +285,9 @@ func c45Any(c *core.Ctx, b core.Batch) {
 		for k := 0; k < c.Scale(4, 40); k++ {
 			r := c.Rng(uint64(ti)<<20 | uint64(k))
 			m := mt.New()
-			gen.Fill(r, m, fillOptsFor(k))
+			if k%4 != 3 {
+				gen.Fill(r, m, fillOptsFor(k))
+			} // every fourth content is the empty message: an Any with an empty payload
 			c.Eval()
 			c.Count("any_roundtrips")
 			c.Log("C45 any type=%s", name)
@@ -316,6 +318,23 @@ func c45Any(c *core.Ctx, b core.Batch) {
 			dst := mt.New().Interface()
 			if e := anypb.UnmarshalTo(a, dst, uo); e != nil || !proto.Equal(dst, m.Interface()) {
 				c.Violation("any:unmarshalto-roundtrip:"+string(name), map[string]any{"err": errStr(e)})
+			}
+			// UnmarshalTo resets its destination: one that already holds other content ends up with m
+			{
+				used := mt.New()
+				gen.Fill(r.Fork(77), used, fillOptsFor(k+1))
+				c.Count("any_unmarshalto_populated_destination")
+				if len(a.Value) == 0 {
+					c.Count("any_empty_payload_into_populated_destination")
+				}
+				if e := anypb.UnmarshalTo(a, used.Interface(), proto.UnmarshalOptions{AllowPartial: true}); e != nil || !proto.Equal(used.Interface(), m.Interface()) {
+					c.Violation("any:unmarshalto-into-populated-destination:"+map[bool]string{true: "empty-payload", false: "non-empty-payload"}[len(a.Value) == 0], map[string]any{"type": string(name), "err": errStr(e)})
+				}
+				// without AllowPartial the verdict is that of the packed message
+				wantErr := proto.CheckInitialized(m.Interface()) != nil
+				if e := anypb.UnmarshalTo(a, mt.New().Interface(), proto.UnmarshalOptions{}); (e != nil) != wantErr {
+					c.Violation("any:unmarshalto-required-verdict", map[string]any{"type": string(name), "want_error": wantErr, "err": errStr(e)})
+				}
 			}
 			nm, e := anypb.UnmarshalNew(a, uo)
 			if e != nil || !proto.Equal(nm, m.Interface()) || nm.ProtoReflect().Descriptor().FullName() != name {
